@@ -31,12 +31,12 @@ func WInt(i int64) W {
 	}
 	return W("i" + strconv.FormatInt(i, 16) + ";")
 }
-func WUint(u uint64) W     { return W("i" + strconv.FormatUint(u, 16) + ";") }
-func WBig(b *big.Int) W    { return W("i" + b.Text(16) + ";") }
-func WFloat(f float64) W   { return W("d" + strconv.FormatUint(math.Float64bits(f), 16) + ";") }
-func WStr(s string) W      { return W("s" + hex.EncodeToString([]byte(s)) + ";") }
-func WBytes(b []byte) W    { return W("b" + hex.EncodeToString(b) + ";") }
-func WLink(b []byte) W     { return W("c" + hex.EncodeToString(b) + ";") }
+func WUint(u uint64) W   { return W("i" + strconv.FormatUint(u, 16) + ";") }
+func WBig(b *big.Int) W  { return W("i" + b.Text(16) + ";") }
+func WFloat(f float64) W { return W("d" + strconv.FormatUint(math.Float64bits(f), 16) + ";") }
+func WStr(s string) W    { return W("s" + hex.EncodeToString([]byte(s)) + ";") }
+func WBytes(b []byte) W  { return W("b" + hex.EncodeToString(b) + ";") }
+func WLink(b []byte) W   { return W("c" + hex.EncodeToString(b) + ";") }
 func WList(items ...W) W {
 	var sb strings.Builder
 	sb.WriteByte('[')
